@@ -53,6 +53,11 @@ def run(ck, ctx):
     R13.dispatch_table(ck, ctx)
     R13.component_step(ck, ctx)
     C.adapter_census(ck, ctx, "all-outputs", ("graph::", "load::"))
+    add_build(ck, ctx)
+
+
+def add_build(ck, ctx):
+    """Graph::add_build registers the new step as the producer of every one of its outputs (explicit and implicit), or rejects it"""
     F = ctx.F
     C.single_writer(ck, ctx, "input-writer", "graph::File", "input", [AB])
     b = ck.need("fn " + AB, F.body(AB))
